@@ -27,8 +27,8 @@ class SecondCallDiffers(Exception):
 
 def _props_of(e):
     """A second gridding of the same arrays that differs breaks conservation (C04: the amounts) and placement (C05: the
-    cells) alike; any other exception is reported under C05."""
-    return ('C04', 'C05') if isinstance(e, SecondCallDiffers) else ('C05',)
+    cells) alike; so does a gridding that raises on a legal trajectory - there is no gridded total and there are no cells."""
+    return ('C04', 'C05')
 
 
 def grid_twice(g, lats, lons, *rest, state_variables=(), integrated_variables=()):
@@ -563,6 +563,8 @@ def run_grid(ctx: Ctx, pid: str):
     alongs = tlc.check(ctx, 'grid/GridAlong', 'grid/MC_GridAlong.cfg', workers=4)['emitted']
     nchain = 400 if ctx.quick else 5000
     chains = tlc.check(ctx, 'grid/GridChain', 'grid/Sim_GridChain.cfg', workers=1, simulate=f'num={nchain}', depth=8, seed=ctx.seed)['emitted']
+    # GridChain.tla Staircases: two legs along latitude lines running the same way over the same meridians
+    chains += tlc.check(ctx, 'grid/GridChain', 'grid/Gen_GridStairs.cfg', workers=4)['emitted']
     ctx.exhaustive = True
     frames = [(maxc, 0.01, 0.0, 0.0)]
     scale = [(maxc, 1.0, 30.0, 10.0), (maxc, 5.0, -45.0, 100.0), (maxc, 1.0, 57.0, -120.0)]
